@@ -19,20 +19,13 @@ From FV Require Import Base.Prelude Cpp.IR Cpp.Exec Model.Lowering Model.FragTra
 From Coq Require Import QArith.
 Close Scope Q_scope.
 
-(* guards around several statements: the statements sit in the innermost if-block *)
-Fixpoint guards_block (conds : list cexp) (inner : stmts) : stmts :=
-  match conds with
-  | [] => inner
-  | c :: r => one_stmt (SIf c (Blk [] (guards_block r inner)) None)
-  end.
-
 Definition prow := list (string * pa).                       (* branch name, element-level column *)
 Inductive qbody :=
 | QRow (r : row)
-| QMany (cr : collref) (ps : list pred) (cols : prow).
+| QMany (cr : collref) (ps : guard) (cols : prow).
 Record query := { q_filter : option ex; q_body : qbody }.
 
-Definition body_size (b : qbody) : nat := match b with QRow r => row_size r | QMany _ _ _ => 2 end.
+Definition body_size (b : qbody) : nat := match b with QRow r => row_size r | QMany _ g _ => 2 + gsize g end.
 
 (* ---------- translation ---------- *)
 Fixpoint prow_sets (iv : string) (arrow : bool) (cols : prow) (nf k : nat) : stmts :=
@@ -60,12 +53,12 @@ Definition row_block (bk : backend) (r : row) (n : nat) : block :=
 Definition row_branches (r : row) (nf : nat) : list branch :=
   map (fun m => {| br_name := fst (fst m); br_var := m_name (snd m) |}) (combine r (row_members r nf 0)).
 
-Definition many_inner (bk : backend) (cr : collref) (cols : prow) (n : nat) : stmts :=
-  app_stmts (prow_sets (iv_name n) (c_arrow cr) cols (n + 2) 0) (one_stmt (SFill (b_fill bk))).
-Definition many_loop_stmt (bk : backend) (cr : collref) (ps : list pred) (cols : prow) (n : nat) : stmt :=
+Definition many_inner (bk : backend) (cr : collref) (cols : prow) (nf : nat) (n : nat) : stmts :=
+  app_stmts (prow_sets (iv_name n) (c_arrow cr) cols nf 0) (one_stmt (SFill (b_fill bk))).
+Definition many_loop_stmt (bk : backend) (cr : collref) (ps : guard) (cols : prow) (n : nat) : stmt :=
   SFor (iv_name n) (CDeref (CVar (vcv_name cr n)))
-       (Blk [] (guards_block (map (tpred (iv_name n) (c_arrow cr)) ps) (many_inner bk cr cols n))).
-Definition many_block (bk : backend) (cr : collref) (ps : list pred) (cols : prow) (n : nat) : block :=
+       (loop_block (iv_name n) (c_arrow cr) ps n (many_inner bk cr cols (n + 2 + gsize ps) n)).
+Definition many_block (bk : backend) (cr : collref) (ps : guard) (cols : prow) (n : nat) : block :=
   Blk [{| d_type := c_ctype cr; d_name := vcv_name cr n; d_init := None |}]
       (SCons (SFetch (b_idiom bk) (vcv_name cr n) (c_ctype cr) (c_bank cr) (fetch_lines (b_idiom bk) (c_ctype cr) (c_bank cr)))
              (one_stmt (many_loop_stmt bk cr ps cols n))).
@@ -73,9 +66,9 @@ Definition many_block (bk : backend) (cr : collref) (ps : list pred) (cols : pro
 Definition body_block (bk : backend) (b : qbody) (n : nat) : block :=
   match b with QRow r => row_block bk r n | QMany cr ps cols => many_block bk cr ps cols n end.
 Definition body_members (b : qbody) (n : nat) : list member :=
-  match b with QRow r => row_members r (n + row_size r) 0 | QMany _ _ cols => prow_members cols (n + 2) 0 end.
+  match b with QRow r => row_members r (n + row_size r) 0 | QMany _ g cols => prow_members cols (n + 2 + gsize g) 0 end.
 Definition body_branches (b : qbody) (n : nat) : list branch :=
-  match b with QRow r => row_branches r (n + row_size r) | QMany _ _ cols => prow_branches cols (n + 2) 0 end.
+  match b with QRow r => row_branches r (n + row_size r) | QMany _ g cols => prow_branches cols (n + 2 + gsize g) 0 end.
 
 (* first index of the body: after the names of the filter condition *)
 Definition body_start (q : query) (n0 : nat) : nat :=
@@ -100,10 +93,10 @@ Fixpoint dprow (ev : event) (v : value) (cols : prow) : res (list value) :=
   | (_, body) :: t => rdo x <- dpa ev v body; rdo xs <- dprow ev v t; ROk (conv (pa_type body) x :: xs)
   end.
 (* SelectMany: the passing elements, in order, each giving one row *)
-Fixpoint many_loop (ev : event) (cols : prow) (ps : list pred) (l : list value) : res (list (list value)) :=
+Fixpoint many_loop (ev : event) (cols : prow) (ps : guard) (l : list value) : res (list (list value)) :=
   match l with
   | [] => ROk []
-  | v :: r => rdo b <- passes ev v ps;
+  | v :: r => rdo b <- gpasses ev v ps;
               if b then rdo row <- dprow ev v cols; rdo rest <- many_loop ev cols ps r; ROk (row :: rest)
               else many_loop ev cols ps r
   end.
@@ -152,7 +145,7 @@ Definition d_qbody (s : sexp) : option qbody :=
   match s with
   | SList [SAtom "row"; SList cols] => option_map QRow (d_list d_col cols)
   | SList [SAtom "many"; cr; SList ps; SList cols] =>
-      match d_collref cr, d_list d_pred ps, d_list d_pcol cols with
+      match d_collref cr, d_guard ps, d_list d_pcol cols with
       | Some cr', Some ps', Some cols' => Some (QMany cr' ps' cols')
       | _, _, _ => None
       end
